@@ -25,7 +25,7 @@ kanirun.DIRS.update({
     "C02": ["map", "C02"],
     "C13": ["map", "C07", "C13"],
     "C07": ["proto", "C07"],
-    "C09": ["C10", "proto", "C09"],
+    "C09": ["C10", "proto", "C14", "C09"],
     "C14": ["C14"],
     "C15": ["proto", "C15"],
 })
